@@ -339,6 +339,10 @@ OPERANDS = [
     ('_aliases', 'a.b.c, d.e.f.g as h'), ('_Import_names', 'a.b.c.d'), ('alias', 'a.b.c'), ('alias', 'a.b.c.d as e'), ('_withitems', 'a as b, c as d, e'), ('_type_params', 'T, U: int, *V, **W'),
     ('arguments', 'a, b, /, c, d, *e, f, g=1, **h'), ('_decorator_list', '@a\n@b.c.d\n@e(f=1, g=2)'), ('_comprehensions', 'for a in b for c in d for e in f'), ('_comprehension_ifs', 'if a if b if c'),
     ('_Assign_targets', 'a = b = c ='),
+    # every kind of element behind / in front of every other kind in argument-like sequences
+    ('_arglikes', 'a, *b, c'), ('_arglikes', 'a, *b, c, d=1'), ('_arglikes', '*b, c'), ('_arglikes', 'a, *b, c, **d'), ('_arglikes', 'a=1, *b, c'), ('_arglikes', '*a, *b'), ('_arglikes', '**a, b=1'),
+    ('arguments', 'a, *b, c, d=1'), ('arguments', 'a, /, *, c'), ('arguments', '*, c, d=1, e'), ('_type_params', 'T: int, U'), ('_type_params', 'T = int, *U'), ('type_param', 'T: (int, str)'),
+    ('_withitems', 'a, b as c, d'), ('_aliases', 'a, b as c, d'), ('_decorator_list', '@a(b)(c)\n@d'), ('_comprehensions', 'for a, b in c if d if e for f in g if h'),
 ]
 MODES = ['expr', 'pattern', 'Tuple', 'List', 'Set', 'stmt', 'stmts', 'exec', 'Expr', '_arglikes', '_arglike', 'arguments', 'arguments_lambda', '_withitems', 'withitem', '_aliases', 'alias',
          '_Import_names', '_ImportFrom_names', '_Assign_targets', '_decorator_list', '_type_params', 'type_param', 'Dict', 'MatchMapping', 'keyword', 'arg', '_comprehension_ifs',
